@@ -443,11 +443,15 @@ def dbg_shape(col, pid, rng, n, edges):
             setup.add(i)
     spec = mk_sel_spec(n, edges, rng, setup=setup, debug=debug)
     spec["is_async"] = rng.random() < 0.25
-    if n >= 3 and rng.random() < 0.25:
+    if n >= 3 and rng.random() < 0.4:
         # a block of the nodes (debug nodes included) lives in an inner DAG: selections then name prefixed ids, and a debug node
         # inside the inner DAG may be fed by one of its parameters
         a0 = rng.randrange(n)
         b0 = min(n - 1, a0 + rng.randint(0, 2))
+        g1 = S.site_graph(spec)
+        multi1 = [(q, i) for i in sorted(debug) for q in g1.predecessors(i) if g1.in_degree(i) >= 2 and q not in debug and 0 < i - q <= 3]
+        if multi1 and rng.random() < 0.6:
+            a0, b0 = rng.choice(multi1)  # the block holds a multi-parent debug node together with one of its parents
         # (a debug result cannot be handed to an inner DAG: its argument stub is a non-debug node - tawazi rejects that, rightly)
         ext_ok = all(j not in debug for i in range(a0, b0 + 1) for (j, _k) in S.deps_of(spec["nodes"][i]) if j < a0)
         if ext_ok and S.nestable(spec, a0, b0, allow_debug=True):
@@ -473,6 +477,14 @@ def dbg_shape(col, pid, rng, n, edges):
         if T is not None:
             kw["target_nodes"] = [ids[i] for i in T]
         ops.append(("executor", kw, (R, X, T)))
+    # aimed selections: ONE parent of a debug node that has several parents (the others stay unselected): the debug node may
+    # only be pulled in when all its inputs are there
+    multi = [i for i in sorted(debug) if g.in_degree(i) >= 2]
+    for i in rng.sample(multi, min(2, len(multi))):
+        p_ = rng.choice(sorted(g.predecessors(i)))
+        if p_ not in debug:
+            ops.append(("executor", {"target_nodes": [ids[p_]]}, (None, None, [p_])))
+            col.counters["c13_selections_of_one_parent_of_a_multi_parent_debug_node"] += 1
     ops.append(("setup", {}, None))
     if rng.random() < 0.5:
         t = rng.randrange(n)
